@@ -98,8 +98,10 @@ class PROP(PropCheck):
                 out.append(Case(src, meta={"exp": exp, "kind": "bin"}))
             src, exp = self.prog_un(s)
             out.append(Case(src, meta={"exp": exp, "kind": "un"}))
+            src, exp = self.prog_un(s + "😀" + s[::-1])
+            out.append(Case(src, meta={"exp": exp, "kind": "un4"}))
         nums = [("-1", -1.0), ("0", 0.0), ("0.5", 0.5), ("1", 1.0), ("2", 2.0), ("1.9", 1.9), ("3", 3.0), ("4", 4.0), ("9" * 300, 1e300)]
-        for s in ["", "a", "héllo", "中é a"]:
+        for s in ["", "a", "héllo", "中é a", "a😀b"]:
             for st in nums:
                 for ln in nums:
                     src, exp = self.prog_sub(s, st, ln)
